@@ -361,7 +361,7 @@ class Exec:
             st.env = saved_env
 
     # ------------------------------------------------------------------------------------------
-    def oblige(self, st, kind, label, goal, lineno, clause=None):
+    def oblige(self, st, kind, label, goal, lineno, clause=None, keep=False):
         hyps = list(st.hyps())
         g = goal
         if st.guards:
@@ -369,7 +369,7 @@ class Exec:
         if sym._bound_stack:
             g = z3.ForAll(list(sym._bound_stack), g)
         sg = z3.simplify(g)
-        if z3.is_true(sg):
+        if z3.is_true(sg) and not keep:
             return
         ob = Obligation(self.c.fid, kind, label, hyps, g, lineno, list(st.path), self.inputs,
                         self.c.prop)
@@ -901,12 +901,12 @@ class Exec:
             return Val(st.out.ty, st.out.t)
         if spec and n.id in self.ms.folds:
             return self.ms.folds[n.id]
+        if n.id in self.ms.aliases or n.id in self.ms.intrinsics:
+            return Builtin(n.id)
         if n.id in BUILTINS:
             return Builtin(n.id)
         if n.id in self._funcs:
             return Closure(self._funcs[n.id], None, n.id)
-        if n.id in self.ms.aliases or n.id in self.ms.intrinsics:
-            return Builtin(n.id)
         if n.id in EXC_NAMES or n.id.endswith('Error'):
             return ExcClass(n.id)
         return ModuleRef(n.id)
@@ -1594,6 +1594,10 @@ class Exec:
             return self.call_method(fn, args, kwargs, st, n, spec)
         if isinstance(fn, ExcClass):
             return ExcVal(fn.name)
+        if isinstance(fn, Val):
+            h = self.ms.intrinsics.get('call:' + fn.ty.key())
+            if h is not None:
+                return h(self, st, [fn] + args, kwargs, n)
         raise OutOfSubset(f'call of {d or fn} at line {n.lineno}')
 
     def bind_args(self, fnode, args, kwargs, st, spec):
